@@ -620,7 +620,7 @@ func (w *c10world) optionalReaderOp(s *c10stream, client, l int, aux int64, when
 		}
 		s.pos++
 	case 10:
-		// an object handed out for reading must not be a way to change the image
+		// an object handed out for reading must not be a way to change the image outside its window
 		did := false
 		payload := []byte{byte(aux), byte(aux >> 8), 0x5A}
 		sim.RecoverLib(func() {
@@ -642,7 +642,15 @@ func (w *c10world) optionalReaderOp(s *c10stream, client, l int, aux int64, when
 		if did {
 			st.SimOps++
 			st.Probe("reader_offers_a_write_method")
+			// inside its own window the object may store what it was given (the property fixes
+			// what a reader delivers and that nothing outside the window is touched, not that a
+			// reader is read-only): the model adopts the window, the rest is compared
+			bankEnd := (s.start>>15 + 1) << 15
+			if s.start >= 0 && bankEnd <= len(w.model) && bankEnd <= len(w.img) {
+				copy(w.model[s.start:bankEnd], w.img[s.start:bankEnd])
+			}
 			w.compareImage("a write through the object returned by BusReader")
+			s.skip = true // where its cursor is after that call is its own business: not read any more
 		}
 	case 11:
 		// slices the reader hands out (bytes.Buffer-like Bytes/Next/Peek) must lie inside the
